@@ -33,10 +33,13 @@ fn is_prefix(a: &Path, b: &Path) -> bool {
     a.len() <= b.len() && a[..] == b[..a.len()]
 }
 
-struct Store(HashMap<ObjectId, Vec<u8>>);
+struct Store(HashMap<ObjectId, Vec<u8>>, Option<ObjectId>);
 
 impl gix_object::Find for Store {
     fn try_find<'a>(&self, id: &gix_hash::oid, buffer: &'a mut Vec<u8>) -> Result<Option<gix_object::Data<'a>>, gix_object::find::Error> {
+        if self.1.as_deref() == Some(id) {
+            return Ok(None);
+        }
         match self.0.get(id) {
             None => Ok(None),
             Some(bytes) => {
@@ -151,7 +154,7 @@ fn rel_str(r: &Option<Relation>) -> String {
 type Rec = (char, Vec<u8>, u16, Vec<u8>, u16, Vec<u8>);
 
 fn run_real(c: &Case) -> (String, Option<Vec<Rec>>) {
-    let mut store = Store(HashMap::new());
+    let mut store = Store(HashMap::new(), None);
     for (id, es) in &c.trees {
         if Some(id) == c.missing.as_ref() {
             continue;
@@ -208,6 +211,227 @@ fn run_real(c: &Case) -> (String, Option<Vec<Rec>>) {
                 }
             }
             (if obs.is_empty() { "none".into() } else { obs.join(",") }, Some(recs))
+        }
+    }
+}
+
+
+fn convert(records: &[Change]) -> (String, Vec<Rec>) {
+    let mut obs = Vec::new();
+    let mut recs = Vec::new();
+    let zero = vec![0u8; 20];
+    for r in records {
+        match r {
+            Change::Addition { entry_mode, oid, path, relation } => {
+                obs.push(format!("A:{}:{:o}:{}:{}", hex(path), entry_mode.0, hex(oid.as_bytes()), rel_str(relation)));
+                recs.push(('A', path.to_vec(), 0, zero.clone(), entry_mode.0, oid.as_bytes().to_vec()));
+            }
+            Change::Deletion { entry_mode, oid, path, relation } => {
+                obs.push(format!("D:{}:{:o}:{}:{}", hex(path), entry_mode.0, hex(oid.as_bytes()), rel_str(relation)));
+                recs.push(('D', path.to_vec(), entry_mode.0, oid.as_bytes().to_vec(), 0, zero.clone()));
+            }
+            Change::Modification { previous_entry_mode, previous_oid, entry_mode, oid, path } => {
+                obs.push(format!("M:{}:{:o}:{}:{:o}:{}", hex(path), previous_entry_mode.0, hex(previous_oid.as_bytes()), entry_mode.0, hex(oid.as_bytes())));
+                recs.push(('M', path.to_vec(), previous_entry_mode.0, previous_oid.as_bytes().to_vec(), entry_mode.0, oid.as_bytes().to_vec()));
+            }
+        }
+    }
+    (if obs.is_empty() { "none".into() } else { obs.join(",") }, recs)
+}
+
+/// how one diff of a sequence on ONE re-used `State` is run
+#[derive(Clone, Debug, PartialEq)]
+enum Flag {
+    Plain,
+    /// the delegate answers `Action::Cancel` at its j-th change (0-based)
+    CancelAt(usize),
+    /// this tree is missing from the object database during this diff
+    Hide(Vec<u8>),
+}
+
+struct Seq {
+    trees: BTreeMap<Vec<u8>, Vec<E>>,
+    steps: Vec<(Vec<u8>, Vec<u8>, Flag)>,
+}
+
+/// a `Recorder` that cancels at its n-th change
+struct Cancelling {
+    inner: gix_diff::tree::Recorder,
+    seen: usize,
+    cancel_at: Option<usize>,
+}
+
+impl gix_diff::tree::Visit for Cancelling {
+    fn pop_front_tracked_path_and_set_current(&mut self) {
+        self.inner.pop_front_tracked_path_and_set_current()
+    }
+    fn push_back_tracked_path_component(&mut self, component: &gix_object::bstr::BStr) {
+        self.inner.push_back_tracked_path_component(component)
+    }
+    fn push_path_component(&mut self, component: &gix_object::bstr::BStr) {
+        self.inner.push_path_component(component)
+    }
+    fn pop_path_component(&mut self) {
+        self.inner.pop_path_component()
+    }
+    fn visit(&mut self, change: gix_diff::tree::visit::Change) -> gix_diff::tree::visit::Action {
+        self.inner.visit(change);
+        let n = self.seen;
+        self.seen += 1;
+        if Some(n) == self.cancel_at {
+            gix_diff::tree::visit::Action::Cancel
+        } else {
+            gix_diff::tree::visit::Action::Continue
+        }
+    }
+}
+
+fn seq_line(q: &Seq) -> String {
+    let mut t: Vec<String> = vec!["s".into(), q.trees.len().to_string()];
+    for (id, es) in &q.trees {
+        t.push(hex(id));
+        t.push(es.len().to_string());
+        for e in es {
+            t.push(e.mode.to_string());
+            t.push(hex(&e.name));
+            t.push(hex(&e.oid));
+        }
+    }
+    for (a, b, f) in &q.steps {
+        t.push(hex(a));
+        t.push(hex(b));
+        t.push(match f {
+            Flag::Plain => "n".into(),
+            Flag::CancelAt(j) => format!("c{j}"),
+            Flag::Hide(id) => format!("h{}", hex(id)),
+        });
+    }
+    t.join(" ")
+}
+
+fn parse_seq(line: &str) -> Option<Seq> {
+    let t: Vec<&str> = line.split(' ').collect();
+    if t.first() != Some(&"s") {
+        return None;
+    }
+    let k: usize = t.get(1)?.parse().ok()?;
+    let mut i = 2;
+    let mut trees = BTreeMap::new();
+    for _ in 0..k {
+        let id = unhex(t.get(i)?)?;
+        let n: usize = t.get(i + 1)?.parse().ok()?;
+        i += 2;
+        let mut es = Vec::new();
+        for _ in 0..n {
+            es.push(E { mode: t.get(i)?.parse().ok()?, name: unhex(t.get(i + 1)?)?, oid: unhex(t.get(i + 2)?)? });
+            i += 3;
+        }
+        trees.insert(id, es);
+    }
+    let mut steps = Vec::new();
+    while i < t.len() {
+        let a = unhex(t.get(i)?)?;
+        let b = unhex(t.get(i + 1)?)?;
+        let f = t.get(i + 2)?;
+        let flag = if *f == "n" {
+            Flag::Plain
+        } else if let Some(j) = f.strip_prefix('c') {
+            Flag::CancelAt(j.parse().ok()?)
+        } else if let Some(h) = f.strip_prefix('h') {
+            Flag::Hide(unhex(h)?)
+        } else {
+            return None;
+        };
+        steps.push((a, b, flag));
+        i += 3;
+    }
+    Some(Seq { trees, steps })
+}
+
+/// run all diffs of the sequence on one `State`; per step: observation and (for completed diffs) the records
+fn run_seq(q: &Seq) -> Vec<(String, Option<Vec<Rec>>)> {
+    let mut store = Store(HashMap::new(), None);
+    for (id, es) in &q.trees {
+        store.0.insert(ObjectId::from_bytes_or_panic(id), raw_tree(es));
+    }
+    let mut state = gix_diff::tree::State::default();
+    let mut out = Vec::new();
+    for (a, b, flag) in &q.steps {
+        store.1 = match flag {
+            Flag::Hide(id) => Some(ObjectId::from_bytes_or_panic(id)),
+            _ => None,
+        };
+        let ta = if store.1.as_ref().map(|h| h.as_bytes()) == Some(&a[..]) { None } else { store.0.get(&ObjectId::from_bytes_or_panic(a)).cloned() };
+        let tb = if store.1.as_ref().map(|h| h.as_bytes()) == Some(&b[..]) { None } else { store.0.get(&ObjectId::from_bytes_or_panic(b)).cloned() };
+        let (Some(ta), Some(tb)) = (ta, tb) else {
+            out.push(("err:root".to_string(), None));
+            continue;
+        };
+        let cancel_at = if let Flag::CancelAt(j) = flag { Some(*j) } else { None };
+        let res = catch(|| {
+            let mut rec = Cancelling { inner: gix_diff::tree::Recorder::default(), seen: 0, cancel_at };
+            let r = gix_diff::tree(
+                gix_object::TreeRefIter::from_bytes(&ta),
+                gix_object::TreeRefIter::from_bytes(&tb),
+                &mut state,
+                &store,
+                &mut rec,
+            );
+            (r, rec.inner.records)
+        });
+        out.push(match res {
+            Err(_) => {
+                // a panic may leave anything behind: continue with a fresh state, the damage is recorded
+                state = gix_diff::tree::State::default();
+                ("panic".to_string(), None)
+            }
+            Ok((Err(gix_diff::tree::Error::Find(_)), _)) => ("err:find".to_string(), None),
+            Ok((Err(gix_diff::tree::Error::Cancelled), records)) => (format!("cancel:{}", convert(&records).0), None),
+            Ok((Err(_), _)) => ("err:other".to_string(), None),
+            Ok((Ok(()), records)) => {
+                let (o, r) = convert(&records);
+                (o, Some(r))
+            }
+        });
+    }
+    out
+}
+
+fn do_seq(rep: &mut Report, git: &mut GitOracle, q: &Seq, with_git: bool) {
+    let line = seq_line(q);
+    let res = run_seq(q);
+    let obs: Vec<&str> = res.iter().map(|r| r.0.as_str()).collect();
+    rep.case(&line, &obs.join("|"), true);
+    rep.bucket(&format!("seq:len{}", q.steps.len().min(6)));
+    for (i, ((a, b, flag), (o, recs))) in q.steps.iter().zip(&res).enumerate() {
+        let kind = match flag {
+            Flag::Plain => "plain",
+            Flag::CancelAt(_) => "cancel",
+            Flag::Hide(_) => "hide",
+        };
+        let outcome = if o.starts_with("cancel:") { "cancelled" } else if o.starts_with("err") || o == "panic" { o.as_str() } else { "completed" };
+        rep.bucket(&format!("seq-step:{kind}:{outcome}"));
+        let prev_aborted = i > 0 && (res[i - 1].0.starts_with("cancel:") || res[i - 1].0.starts_with("err:find"));
+        if prev_aborted {
+            rep.bucket(&format!("seq-step:after-abort:{outcome}"));
+        }
+        let c = Case { trees: q.trees.clone(), a: a.clone(), b: b.clone(), missing: None };
+        let key_ctx = format!("step {i} of a sequence on one State ({}) {}", if prev_aborted { "previous diff aborted" } else { "previous diff completed" }, short_key(&c));
+        if o == "panic" {
+            rep.oracle_failure(&format!("seq-panic {key_ctx}"), "gix_diff::tree panicked on a re-used State", &line);
+            continue;
+        }
+        match flag {
+            Flag::Hide(_) => {}
+            _ => {
+                // whatever happened before on this State, a diff that completes must be the diff of its two trees
+                if o.starts_with("err") {
+                    rep.oracle_failure(&format!("seq-failed {key_ctx}"), &format!("diff failed with {o} although every tree is available"), &line);
+                }
+            }
+        }
+        if let Some(recs) = recs {
+            judge(rep, git, &c, recs, &line, with_git && *flag == Flag::Plain, &format!("seq {key_ctx}"));
         }
     }
 }
@@ -411,6 +635,13 @@ fn do_case(rep: &mut Report, git: &mut GitOracle, c: &Case, with_git: bool, clas
         };
         rep.bucket(&format!("change:{cls}"));
     }
+    judge(rep, git, c, &recs, &line, with_git, "");
+}
+
+/// the property on one completed diff: applying the changes to A gives B, nothing twice, A vs A empty, and git agrees
+fn judge(rep: &mut Report, git: &mut GitOracle, c: &Case, recs: &[Rec], line: &str, with_git: bool, ctx: &str) {
+    let recs: Vec<Rec> = recs.to_vec();
+    let line = line.to_string();
     // the property, part 2: applying the changes to A yields B; no duplicates
     rep.oracle_checked();
     let mut na = BTreeMap::new();
@@ -420,22 +651,22 @@ fn do_case(rep: &mut Report, git: &mut GitOracle, c: &Case, with_git: bool, clas
     let mut sorted = recs.clone();
     sorted.sort();
     if sorted.windows(2).any(|w| w[0] == w[1]) {
-        rep.oracle_failure(&format!("duplicate-change {}", short_key(c)), "the same change is reported twice", &line);
+        rep.oracle_failure(&format!("duplicate-change {ctx}{}", short_key(c)), "the same change is reported twice", &line);
     }
     match apply(&na, &recs) {
-        Err(e) => rep.oracle_failure(&format!("apply {}", short_key(c)), &e, &line),
+        Err(e) => rep.oracle_failure(&format!("apply {ctx}{}", short_key(c)), &e, &line),
         Ok(m) => {
             if m != nb {
                 let diff: Vec<String> = nb.iter().filter(|(p, v)| m.get(*p) != Some(v)).map(|(p, v)| format!("{}:{:o}", String::from_utf8_lossy(p), v.0)).collect();
-                rep.oracle_failure(&format!("apply {}", short_key(c)), &format!("applying the reported changes to A does not give B; B differs at {diff:?}"), &line);
+                rep.oracle_failure(&format!("apply {ctx}{}", short_key(c)), &format!("applying the reported changes to A does not give B; B differs at {diff:?}"), &line);
             }
         }
     }
     if c.a == c.b && !recs.is_empty() {
-        rep.oracle_failure(&format!("self-diff {}", short_key(c)), "diff of a tree with itself is not empty", &line);
+        rep.oracle_failure(&format!("self-diff {ctx}{}", short_key(c)), "diff of a tree with itself is not empty", &line);
     }
     if with_git {
-        git.pending.push((format!("vs-git {}", short_key(c)), line, Case { trees: c.trees.clone(), a: c.a.clone(), b: c.b.clone(), missing: None }, recs));
+        git.pending.push((format!("vs-git {ctx}{}", short_key(c)), line, Case { trees: c.trees.clone(), a: c.a.clone(), b: c.b.clone(), missing: None }, recs));
     }
 }
 
@@ -559,6 +790,79 @@ fn mutate(r: &mut Rng, a: &Leaves) -> Leaves {
     b
 }
 
+/// a sequence of diffs over a chain of related trees on ONE `State`: aborted diffs (cancelled by the
+/// delegate at a random change, or failing on a missing sub-tree) each followed by ordinary ones
+fn gen_seq(r: &mut Rng) -> Seq {
+    let mut trees = BTreeMap::new();
+    let mut versions: Vec<(Leaves, Vec<u8>)> = Vec::new();
+    let mut cur = gen_leaves(r);
+    // make sure there is something to recurse into
+    if r.chance(3, 4) {
+        let mut p = gen_path(r);
+        p.push(gen_name(r));
+        insert_leaf(&mut cur, p, (0o100644, gen_id(r)));
+    }
+    let n = 2 + r.usize(3);
+    for _ in 0..n {
+        let id = build(&cur, &Vec::new(), &mut trees);
+        versions.push((cur.clone(), id));
+        cur = mutate(r, &cur);
+        if r.chance(1, 2) {
+            let mut p = gen_path(r);
+            p.push(gen_name(r));
+            insert_leaf(&mut cur, p, (*r.pick(&LEAF_MODES), gen_id(r)));
+        }
+    }
+    let pick_pair = |r: &mut Rng| -> (Vec<u8>, Vec<u8>) {
+        let i = r.usize(versions.len());
+        let mut j = r.usize(versions.len());
+        if i == j && r.chance(9, 10) {
+            j = (j + 1) % versions.len();
+        }
+        (versions[i].1.clone(), versions[j].1.clone())
+    };
+    let mut steps = Vec::new();
+    let k = 2 + r.usize(5);
+    for _ in 0..k {
+        let (a, b) = pick_pair(r);
+        let flag = match r.below(10) {
+            0..=3 => Flag::CancelAt(r.usize(6)),
+            4..=5 => {
+                // hide a sub-tree reachable from one of the two roots (not a root itself)
+                let mut reach = BTreeSet::new();
+                fn walk(trees: &BTreeMap<Vec<u8>, Vec<E>>, id: &[u8], out: &mut BTreeSet<Vec<u8>>) {
+                    if let Some(es) = trees.get(id) {
+                        for e in es.iter().filter(|e| is_tree_mode(e.mode)) {
+                            if out.insert(e.oid.clone()) {
+                                walk(trees, &e.oid, out);
+                            }
+                        }
+                    }
+                }
+                walk(&trees, &a, &mut reach);
+                walk(&trees, &b, &mut reach);
+                reach.remove(&a);
+                reach.remove(&b);
+                let v: Vec<Vec<u8>> = reach.into_iter().collect();
+                if v.is_empty() {
+                    Flag::CancelAt(0)
+                } else {
+                    Flag::Hide(v[r.usize(v.len())].clone())
+                }
+            }
+            _ => Flag::Plain,
+        };
+        let aborting = flag != Flag::Plain;
+        steps.push((a, b, flag));
+        if aborting {
+            // what matters: the next diff on the same State
+            let (a, b) = pick_pair(r);
+            steps.push((a, b, Flag::Plain));
+        }
+    }
+    Seq { trees, steps }
+}
+
 fn make_case(a: &Leaves, b: &Leaves) -> Case {
     let mut trees = BTreeMap::new();
     let ia = build(a, &Vec::new(), &mut trees);
@@ -577,6 +881,10 @@ fn main() {
     let mut git = GitOracle::new();
     if let Some(lines) = replay_ops(&args) {
         for l in lines {
+            if let Some(q) = parse_seq(&l) {
+                do_seq(&mut rep, &mut git, &q, true);
+                continue;
+            }
             match parse_line(&l) {
                 Some(c) => do_case(&mut rep, &mut git, &c, true, "replay"),
                 None => rep.note(&format!("replay: unparsable line {}", &l[..l.len().min(60)])),
@@ -612,8 +920,38 @@ fn main() {
             do_case(&mut rep, &mut git, &make_case(&leaves_of(&la), &leaves_of(&lb)), true, "corpus");
         }
     }
+    // sequences on one re-used State: first the textbook shape — a diff that queues sub-trees is aborted
+    // (cancelled at its first change / a sub-tree is missing), then an unrelated diff runs on the same State
+    {
+        let a = leaves_of(&[("d/x", 0o100644, 1), ("e/y", 0o100644, 1), ("f", 0o100644, 1)]);
+        let b = leaves_of(&[("d/x", 0o100644, 2), ("e/y", 0o100644, 2), ("f", 0o100644, 2)]);
+        let c = leaves_of(&[("g", 0o100644, 3)]);
+        let d = leaves_of(&[("g", 0o100755, 3), ("h/i", 0o100644, 4)]);
+        let mut trees = BTreeMap::new();
+        let ia = build(&a, &Vec::new(), &mut trees);
+        let ib = build(&b, &Vec::new(), &mut trees);
+        let ic = build(&c, &Vec::new(), &mut trees);
+        let id = build(&d, &Vec::new(), &mut trees);
+        let sub = trees[&ia].iter().find(|e| e.name == b"e").unwrap().oid.clone();
+        for flag in [Flag::CancelAt(0), Flag::CancelAt(1), Flag::CancelAt(2), Flag::Hide(sub)] {
+            let q = Seq {
+                trees: trees.clone(),
+                steps: vec![(ia.clone(), ib.clone(), flag), (ic.clone(), id.clone(), Flag::Plain), (ia.clone(), ib.clone(), Flag::Plain)],
+            };
+            do_seq(&mut rep, &mut git, &q, true);
+        }
+    }
+    let nseq = args.budget(700, 20_000);
+    let seq_git = args.budget(250, 3_000);
+    for i in 0..nseq {
+        let q = gen_seq(&mut r);
+        do_seq(&mut rep, &mut git, &q, i < seq_git);
+        if git.pending.len() >= 2_000 {
+            git.run(&mut rep);
+        }
+    }
     let n = args.budget(2_500, 80_000);
-    let with_git = args.budget(1_200, 12_000);
+    let with_git = args.budget(1_000, 10_000);
     for i in 0..n {
         let a = gen_leaves(&mut r);
         let b = if r.chance(1, 12) { gen_leaves(&mut r) } else { mutate(&mut r, &a) };
